@@ -262,6 +262,12 @@ func (c *compiler) compileSliceEnd(opt ast.Expr, ce *ast.CallExpr) *compiledFunc
 }
 
 func (c *compiler) compileSlice(p *parallel, ce *ast.CallExpr) *sliceTask {
+	// A call returning several values may stand for the whole argument
+	// list: cff.Slice(f()) type-checks with a single argument expression.
+	if len(ce.Args) < 2 {
+		c.errf(c.nodePosition(ce), "cff.Slice expects a function and a slice as separate arguments")
+		return nil
+	}
 	sliceFn, slce := ce.Args[0], ce.Args[1]
 	fn := c.compileFunction(sliceFn)
 	if fn == nil {
@@ -344,6 +350,11 @@ type mapTask struct {
 }
 
 func (c *compiler) compileMap(ce *ast.CallExpr) *mapTask {
+	// See compileSlice: cff.Map(f()) has a single argument expression.
+	if len(ce.Args) < 2 {
+		c.errf(c.nodePosition(ce), "cff.Map expects a function and a map as separate arguments")
+		return nil
+	}
 	mapFun, mmap := ce.Args[0], ce.Args[1]
 	fn := c.compileFunction(mapFun)
 	if fn == nil {
